@@ -256,8 +256,9 @@ structure Stepper (α : Type) where
   patienceCount : Nat
   continual : Bool
 
-/-- `_Stepper.reset`: `last = inf, steps = 0, _continual = True` (`patience_count` is *not* reset) -/
-def Stepper.reset (s : Stepper α) : Stepper α := { s with last := none, steps := 0, continual := true }
+/-- `_Stepper.reset`: `last = inf; steps, _continual, patience_count = 0, True, 0` -/
+def Stepper.reset (s : Stepper α) : Stepper α :=
+  { s with last := none, steps := 0, continual := true, patienceCount := 0 }
 
 /-- `(last - loss)/loss < decreasing` with the IEEE conventions for `last = inf` and `loss = 0` -/
 def Stepper.slow (s : Stepper α) (loss : α) : Bool :=
